@@ -99,3 +99,8 @@ Definition sx_of_ds (d : ds) : sx :=
 
 Definition model_of_sx (x : sx) : list ds := map ds_of_sx (sx_list x).
 Definition sx_of_model (m : list ds) : sx := L (map sx_of_ds m).
+
+(* small constructors used by the examples *)
+Definition ex_call0 (p n f : string) : call := mkCall p "" n f [] (mkPos 0 0 0 0).
+Definition ex_func0 (n : string) (cs : list call) : func :=
+  mkFunc n "void" [] cs false [] false false [] (mkPos 0 0 0 0).
